@@ -82,6 +82,7 @@ type replayFile struct {
 	// Platform of the process that found the failure; the driver replays under the same one.
 	GOARCH     string          `json:"goarch,omitempty"`
 	GOMAXPROCS int             `json:"gomaxprocs,omitempty"`
+	RaceBuild  bool            `json:"race_build,omitempty"`
 	Case       json.RawMessage `json:"case"`
 }
 
@@ -237,8 +238,17 @@ func (c *Check[C]) Execute(t *testing.T) {
 	}
 	t.Cleanup(func() { arm(nil) })
 
+	persist := os.Getenv("VERIF_PERSIST_CURRENT")
 	one := func(v C, fixed bool) error {
 		o := &Obs{}
+		if persist != "" {
+			// second run of a shard whose process was killed by the runtime: leave the case on disk before running it
+			raw, _ := json.Marshal(v)
+			rf := replayFile{Property: c.Property(), Check: c.Name, Case: raw, GOARCH: runtime.GOARCH, GOMAXPROCS: runtime.GOMAXPROCS(0),
+				RaceBuild: os.Getenv("VERIF_RACE_BUILD") == "1", Class: "process-killed", Error: "the process was killed by the Go runtime (fatal error) while it ran this case"}
+			out, _ := json.MarshalIndent(rf, "", " ")
+			_ = os.WriteFile(persist, append(out, '\n'), 0o644)
+		}
 		arm(&v)
 		err := c.exec(v, o)
 		arm(nil)
@@ -271,6 +281,7 @@ func (c *Check[C]) Execute(t *testing.T) {
 		}
 	}
 	if c.Gen == nil {
+		c.stats.Requested = 0 // a check made of fixed cases only
 		return
 	}
 	_ = flag.Set("rapid.checks", strconv.Itoa(requests))
@@ -317,7 +328,7 @@ func writeReplay(property, check string, v any, err error) string {
 	}
 	_ = os.MkdirAll(dir, 0o755)
 	raw, _ := json.Marshal(v)
-	rf := replayFile{Property: property, Check: check, Case: raw, GOARCH: runtime.GOARCH, GOMAXPROCS: runtime.GOMAXPROCS(0)}
+	rf := replayFile{Property: property, Check: check, Case: raw, GOARCH: runtime.GOARCH, GOMAXPROCS: runtime.GOMAXPROCS(0), RaceBuild: os.Getenv("VERIF_RACE_BUILD") == "1"}
 	if err != nil {
 		rf.Error = err.Error()
 		var f *Failure
